@@ -1,5 +1,6 @@
 import HabuVerif.Proofs.SignSound
 import HabuVerif.Proofs.SignSound2
+import HabuVerif.Proofs.SignLift
 import HabuVerif.Gen.C15Sign_2021
 import HabuVerif.Gen.C15Sign_2022
 import HabuVerif.Gen.C15Sign_2023
@@ -25,8 +26,9 @@ NaN-safe rule, `float`, `round`, `ceil`, `len`, `list`, `range`, `str`), `+ - * 
 helper calls, and the string lemmas that a literal, qualified or `prefix{n}suffix` key denotes the (class, line)
 the analysis computed (`key_sound`, `fstr_sound`).  `closed_line_sound'` is the induction step of the lift to
 solver states: every line of a closed set returns a not-negative number when the lines of the set it reads hold
-not-negative numbers.  PARTIAL: the lift itself (an invariant over solver states) is not proved, and the larger
-`sum` sets trust that CPython's compensated `sum` of not-negative numbers is not negative.
+not-negative numbers.  The lift to solver states is proved too (below).  PARTIAL: the larger `sum` sets trust that CPython's
+compensated `sum` of not-negative numbers is not negative (they are re-checked for closedness, but no soundness
+theorem is claimed for them), and lines outside the sets are decided by the oracle.
 -/
 set_option autoImplicit false
 
@@ -51,6 +53,52 @@ theorem closed_set_line {trust : Bool} {y : YearDecl} {S : SSet} (h : closedWith
     {c : ClassDecl} (hc : c ∈ y.classes) {l : LineDecl} (hl : l ∈ c.lines)
     (hin : S.has (code (nats c.name)) (code (nats l.name)) = true) : nnLineWith trust y S c l = true :=
   closedWith_line h hc hl hin
+
+/-! ## The lift to every state the solver returns (`Proofs/SignLift.lean`)
+
+`Sign.solved_lines_not_negative`: an invariant over solver states (every stored value under a key of `S` is a
+not-negative number; every stored input text that parses, parses to a not-negative value), threaded through every
+step of the solver model with `StepPres`; the only step that stores a line value is an evaluation of that line's
+regenerated program, where `semBridge` (catalogue name ↦ class, instance, line declaration) and
+`closed_line_sound'` apply.  Instantiated with the closed sets of each year: -/
+
+section lift
+variable {σ : Sched String String} {Po : Option (Nat → String → List String → Option String)}
+  {inp : List (String × String)} {forms extra : List String} {fuel qfuel : Nat}
+  {s : St String String String Val String}
+
+/-- **2021: in every state the solver returns for a return whose input amounts are not negative, every stored
+value of a line of `S_2021` (391 of the 569 numeric lines) is a not-negative number.** -/
+theorem solved_lines_not_negative_2021 (hσ : SchedOK σ)
+    (hinp : ∀ x str v, inp.lookup x = some str → (mkCat year2021).parse x str = some v → Val.NN v = true)
+    (hans : ∀ P, Po = some P → ∀ k x nb str v, P k x nb = some str → (mkCat year2021).parse x str = some v →
+      Val.NN v = true)
+    (h : solve (mkCat year2021) σ Po inp forms extra fuel qfuel = .ok (some s)) :
+    ∀ n v, s.vf n = some v → keyIn C15Sign_2021.S_2021 n = true → Val.NN v = true ∧ Val.isNum v = true :=
+  Sign.solved_lines_not_negative sign_closed_2021 hσ hinp hans h
+
+theorem solved_lines_not_negative_2022 (hσ : SchedOK σ)
+    (hinp : ∀ x str v, inp.lookup x = some str → (mkCat year2022).parse x str = some v → Val.NN v = true)
+    (hans : ∀ P, Po = some P → ∀ k x nb str v, P k x nb = some str → (mkCat year2022).parse x str = some v →
+      Val.NN v = true)
+    (h : solve (mkCat year2022) σ Po inp forms extra fuel qfuel = .ok (some s)) :
+    ∀ n v, s.vf n = some v → keyIn C15Sign_2022.S_2022 n = true → Val.NN v = true ∧ Val.isNum v = true :=
+  Sign.solved_lines_not_negative sign_closed_2022 hσ hinp hans h
+
+theorem solved_lines_not_negative_2023 (hσ : SchedOK σ)
+    (hinp : ∀ x str v, inp.lookup x = some str → (mkCat year2023).parse x str = some v → Val.NN v = true)
+    (hans : ∀ P, Po = some P → ∀ k x nb str v, P k x nb = some str → (mkCat year2023).parse x str = some v →
+      Val.NN v = true)
+    (h : solve (mkCat year2023) σ Po inp forms extra fuel qfuel = .ok (some s)) :
+    ∀ n v, s.vf n = some v → keyIn C15Sign_2023.S_2023 n = true → Val.NN v = true ∧ Val.isNum v = true :=
+  Sign.solved_lines_not_negative sign_closed_2023 hσ hinp hans h
+
+end lift
+
+/-- the statement is about real lines: total tax (1040 line 24) and the QBI deduction (line 13) of 2023 are keys of
+the set, the refund-side subtraction line 37 is not -/
+example : keyIn C15Sign_2023.S_2023 "1040.24" = true ∧ keyIn C15Sign_2023.S_2023 "1040.13" = true ∧
+    keyIn C15Sign_2023.S_2023 "w-2:1.box_2" = true ∧ keyIn C15Sign_2023.S_2023 "1040.37" = false := by decide +kernel
 
 end HabuVerif.C15Sign
 
@@ -79,6 +127,11 @@ end HabuVerif.C15Sign
 #print axioms HabuVerif.Sign.roundFact
 #print axioms HabuVerif.Sign.roundFloatNegFact
 #print axioms HabuVerif.Sign.nnLine_sound
+#print axioms HabuVerif.Sign.semBridge
+#print axioms HabuVerif.Sign.solved_lines_not_negative
+#print axioms HabuVerif.C15Sign.solved_lines_not_negative_2021
+#print axioms HabuVerif.C15Sign.solved_lines_not_negative_2022
+#print axioms HabuVerif.C15Sign.solved_lines_not_negative_2023
 #print axioms HabuVerif.Sign.closed_line_sound'
 #print axioms HabuVerif.Sign.restFacts_of
 #print axioms HabuVerif.Sign.wrapFact
